@@ -93,7 +93,7 @@ def dense_by_tokens(ttn, tokens):
 
 
 # ---- operation generator --------------------------------------------------------------------------
-def gen_build(rng, nnodes):
+def gen_build(rng, nnodes, nopen_choices=(0, 1, 1, 1, 2, 3), dim_choices=(1, 2, 2, 3)):
     """add_root/add_child ops: random shapes, random leg positions, 0/1/2+ open legs"""
     ops = []
     names = [f"n{i}" for i in range(nnodes)]
@@ -102,7 +102,7 @@ def gen_build(rng, nnodes):
     cur = {}      # node -> list of labels in current node order: ("p",), ("c", j), ("o",)
     dims = {}     # edge child index -> bond dim
     for i in range(1, nnodes):
-        dims[i] = rng.choice([1, 2, 2, 3])
+        dims[i] = rng.choice(dim_choices)
     order = [0]
     frontier = [i for i in range(1, nnodes) if parents[i] == 0]
     while frontier:
@@ -116,8 +116,8 @@ def gen_build(rng, nnodes):
         for j in range(nnodes):
             if parents[j] == i:
                 legs.append(("c", j, dims[j]))
-        for _ in range(rng.choice([0, 1, 1, 1, 2, 3]) if nnodes > 1 or True else 1):
-            legs.append(("o", rng.choice([1, 2, 2, 3])))
+        for _ in range(rng.choice(nopen_choices)):
+            legs.append(("o", rng.choice(dim_choices)))
         rng.shuffle(legs)
         shape = [l[-1] for l in legs]
         if parents[i] is None:
